@@ -1,4 +1,4 @@
-import ScalesModel.Adapter.Heap
+import ScalesModel.Proofs.HeapInv
 namespace Scales.Heap
 theorem C04_placeholder : True := trivial
 end Scales.Heap
